@@ -3,6 +3,7 @@ import Driver.Op
 import Driver.Body
 import Driver.Engine
 import Driver.Memo
+import Driver.Decode
 /-!
   Line-protocol driver.  One request per line:
 
@@ -29,6 +30,7 @@ def engineModel (eng : String) (args : List String) : Option String :=
   | "engrep" => Eng.model args
   | "iso" => Eng.isoModel args
   | "audit" => Eng.auditModel args
+  | "decode" => Decode.model args
   | _ => none
 
 def engineJudge (eng : String) (args obs : List String) : Bool :=
@@ -45,6 +47,7 @@ def engineJudge (eng : String) (args obs : List String) : Bool :=
     (match obs with
      | [r, b, e] => b == "bad=0" && (r.drop 8).toString == (e.drop 9).toString
      | _ => false)
+  | "decode" => Decode.judge args obs
   | "memo" => Memo.judge args obs
   | "iso" => (match Eng.isoModel args with | some m => m == " ".intercalate obs | none => !obs.contains "PANIC")
   | _ => true
